@@ -30,7 +30,7 @@ func (c14Checker) Meta() CheckerMeta {
 		Real:        []string{"pongo2 package (all four Execute* entry points, every tag/filter the generator writes)", "pongo2.FSLoader over the simulated fs.FS", "bytes.Buffer"},
 		Stub:        []string{"the caller's io.Writer (recording, faulting, sticky once failed)", "context call-backs y/yv/Cb, filter vsim, tag vsim (return the injected error)", "template files (in-memory disk)"},
 		Assumptions: []string{"the fault-free run of the same program/context is the reference for 'what a successful run would have produced'", "a failed writer stays failed (like a closed connection); only legal io.Writer behaviour is injected"},
-		QuickRuns:   400, QuickRace: 0,
+		QuickRuns: 6000, QuickRace: 0,
 	}
 }
 
